@@ -232,7 +232,7 @@ def merge_integration_branches(job, wbranches):
         # The octopus merge makes sure that the merge leaves the development
         # branches self-contained.
         if job.settings.no_octopus:
-            consecutive_merge(wbranch.dst_branch, prev.dst_branch, wbranch)
+            consecutive_merge(wbranch.dst_branch, wbranch, prev.dst_branch)
         else:
             robust_merge(wbranch.dst_branch, prev.dst_branch, wbranch)
         prev = wbranch
